@@ -544,3 +544,8 @@ package j5schema
 //@   |   && (forall i int {result.ProtoField[i]} :: 0 <= i && i < len(inParent) ==> result.ProtoField[i] == inParent[i])
 //@   |   && (forall j int {prop.ProtoField[j]} :: 0 <= j && j < len(prop.ProtoField) ==> result.ProtoField[len(inParent) + j] == prop.ProtoField[j])
 //@   ensures kept: result.Schema == prop.Schema && result.JSONName == prop.JSONName && result.Required == prop.Required && result.ExplicitlyOptional == prop.ExplicitlyOptional && result.Parent == prop.Parent
+
+// the proto kinds the language has no type for are rejected, not mapped to a float (C18 kind chain):
+// fixed32/sfixed32/fixed64/sfixed64 (kinds 7, 15, 6, 16) and groups (10)
+//@ func buildScalarType
+//@   ensures kind.fixed: fdKind(src) == 6 || fdKind(src) == 16 || fdKind(src) == 7 || fdKind(src) == 15 || fdKind(src) == 10 ==> result1 != nil
